@@ -710,13 +710,15 @@ def cfg_scriptgen(cap, maxlen, lits, vars_, labels, datas, maxn=2):
 
 
 def plan_script(run, prop, tier):
-    """C14: ScriptGen.tla grows every in-domain program command by command, renders it in four legal formattings and in every
+    """C14: ScriptGen.tla grows every in-domain program command by command, renders it in five legal formattings and in every
     single-fault corruption the property requires to be rejected, with the expected graph; the harness deploys the text and,
     independently, applies the same API calls, and compares the two graphs completely (and with the model)."""
     acc = Acc()
     datas = ["CA-FE", "00-1A-2B-3C-4D-5E-6F-70-81"]
     # the two variable names differ only by the nu sign ($x and $<nu>x are two variables; <nu> is optional in front of LITERALS only)
     jobs = [("programs <=4 commands, ids {0,1}, vars {x,<nu>x}, labels foo and one Greek character", cfg_scriptgen(5, 4, [0, 1], ["x", "%NU%x"], ["foo", "%RHO%"], datas), [(2, 5), (16, 64)], 1)]
+    # labels at the edge of what a label text may be: the alpha sign with a seven-digit index, eight characters, 4-byte characters
+    jobs.append(("programs <=3 commands, ids {0,1}, var {x}, labels alpha+7 digits / 8 characters / alpha0", cfg_scriptgen(5, 3, [0, 1], ["x"], ["%ALPHA%1234567", "abcdefgh", "%ALPHA%0"], ["CA-FE"], maxn=3), [(3, 5)], 1))
     if tier == "thorough":
         jobs.append(("programs <=5 commands, ids {0,1}, var {x}", cfg_scriptgen(5, 5, [0, 1], ["x"], ["foo"], ["CA-FE"]), [(2, 5), (3, 9)], 1))
         jobs.append(("programs <=4 commands, ids {0,2,3}, vars {x,y}", cfg_scriptgen(6, 4, [0, 2, 3], ["x", "y"], ["foo", "b"], datas), [(2, 6)], 1))
@@ -742,7 +744,7 @@ def plan_script(run, prop, tier):
             acc.e2.append(rec)
             if j["samples"]:
                 acc.samples.extend(j["samples"][:2])
-            if j["executed"] == 0 or j["with_variables"] == 0 or len(j["by_fault"]) < 8 or len(j["by_style"]) < 4:
+            if j["executed"] == 0 or j["with_variables"] == 0 or len(j["by_fault"]) < 8 or len(j["by_style"]) < 5:
                 raise ToolError("vacuity: script vectors do not cover variables / all fault classes / all styles")
             if j["witnesses"]:
                 v = vlib.judge(run, j["witness_file"], n)
